@@ -79,6 +79,7 @@ Init == /\ by \in ByOpts
         /\ EmitCase(by, slots, o)
 Next == /\ Len(slots) < MaxSlots
         /\ \E s \in SlotDomain :
+             /\ (Len(slots) = 2 => s.src # "out")          \* (the third golden is called stdout)
              /\ slots' = Append(slots, s)
              /\ by' = by
              /\ sub' = sub
